@@ -1838,10 +1838,10 @@ def op_reserved(w, op):
 
 
 def gen_reserved(g, sh, ms):
-    op = {"op": "reserved", "method": g.choice(RESERVED_METHODS), "variant": g.choice(RESERVED_VARIANTS), "base": g.choice(sh.groups()), "on_container": g.random() < 0.4, "via_local": g.random() < 0.25}
+    op = {"op": "reserved", "method": g.choice(RESERVED_METHODS + ["copy_dst", "move_dst", "copy_src"]), "variant": g.choice(RESERVED_VARIANTS), "base": g.choice(sh.groups()), "on_container": g.random() < 0.4, "via_local": g.random() < 0.25}
     if g.random() < 0.2:
         op["as_bytes"] = True
-    if g.random() < 0.25:
+    if g.random() < 0.12:
         op["method"] = "copy_dst_group_name"
         op.update(dst_obj=g.choice(["self", "container", "root"]), dst_name=g.choice(["plain", "meta", "nested"]))
     return op
